@@ -559,13 +559,13 @@ def check_chunks(chk, ctx, ds, dd, model_entries, pop_names_all, codes, tag):
         out = ask(ctx, 'frag %d %s' % (size, w))
         impl_ch = [sorted((codes.c(split_key(k)[0]), split_key(k)[1], codes.i(split_key(k)[2])) for k in f) for f in frags]
         if out.startswith('ok '):
-            body = out[3:]
-            model_ch = [sorted(tuple(int(x) for x in t.split(':')) for t in c.split(',')) if c != '-' else [] for c in body.split('|')]
+            body = out[3:].strip()
+            model_ch = [sorted(tuple(int(x) for x in t.split(':')) for t in c.split(',')) if c != '-' else [] for c in body.split('|')] if body else []
             if model_ch == impl_ch: chk.k_ok('frag')
             else: kbad(chk, 'frag', ds, impl_ch, model_ch, None, at)
         else:
             kbad(chk, 'frag', ds, impl_ch, out, None, at)
-        if len(frags) <= 40:
+        if 0 < len(frags) <= 40:
             out = ask(ctx, 'fragspec %d %d %s %s' % (size, pol, ','.join(map(str, proj)), w))
             if out.startswith('ok '):
                 mparts = [nd_float(t) for t in out[3:].split('|')]
@@ -580,7 +580,9 @@ def check_chunks(chk, ctx, ds, dd, model_entries, pop_names_all, codes, tag):
                 else: kbad(chk, 'fragspec', ds, [np.asarray(p.data) for p in parts], mparts, worst, at)
             else:
                 kbad(chk, 'fragspec', ds, 'spectra', out, None, at)
-    # ---- bootstraps with the choices recorded
+    # ---- bootstraps with the choices recorded (an empty dictionary has no chunks: nothing to resample)
+    if not frags:
+        return
     nboot = ds['params']['nboot']
     rec = []
     orig = M.random.choices
@@ -951,6 +953,15 @@ def check_full_dataset(chk, ctx, ds):
                 Dref = float(ref['pi'] - ref['W']) / math.sqrt(float(ref['var']))
                 if not scalar_close(D, Dref, rtol=1e-8, scale=abs(float(ref['pi']) + float(ref['W'])) / math.sqrt(float(ref['var']))):
                     chk.fail('stats:Tajima_D', "Tajima's D %.12g != %.12g from counted S and pi (n=%d)" % (D, Dref, n), inp)
+            # pi survives projection (C13_pi_projection): project to a random m >= 2 and compare with the pairwise differences of the full matrix
+            m = 2 + (ds['params']['bootseed'] + pi_) % (n - 1)
+            try:
+                pim = float(dadi.Spectrum.from_data_dict(dd, [p], [m], polarized=True).pi())
+                chk.l3(('pi-projected', n, m == n, ref['S'] > 0))
+                if not scalar_close(pim, ref['pi'], scale=sc):
+                    chk.fail('stats:pi-projected', 'pi of the spectrum projected to %d of %d chromosomes %.12g != %.12g counted on the full matrix' % (m, n, pim, float(ref['pi'])), inp)
+            except Exception as e:
+                chk.fail('stats:pi-projected:raises:%s' % type(e).__name__, 'pi on a projected spectrum raises %r' % (e,), inp)
             if have_driver(ctx):
                 cw = ';'.join(''.join(map(str, c)) for c in cols) if cols else '-'
                 out = ask(ctx, 'direct1 %d %s' % (n, cw))
@@ -1090,12 +1101,12 @@ def run(chk, ctx):
         'the statistics theorems (C13_S, C13_pi, C13_watterson, C13_tajima, C13_fst) are stated for completely called, unprojected data; for projected / folded spectra the statistics are compared with the model numerically (K) only',
         'random choices (bootstrap chunks, sub-sampled individuals) are parameters: recorded from the real run and replayed by the model; that numpy draws without replacement is checked on the recorded draws only',
         'the chunk loop is modelled position by position (restart from chunk 0) and tied to the carried-along loop of the code by K; gz/zip inputs are not exercised']
-    nv = 26 if tier == 'quick' else 220
-    ns = 8 if tier == 'quick' else 70
-    nd = 8 if tier == 'quick' else 60
-    nf = 10 if tier == 'quick' else 80
-    ndp = 4 if tier == 'quick' else 24
-    nai = 3 if tier == 'quick' else 12
+    nv = 60 if tier == 'quick' else 500
+    ns = 20 if tier == 'quick' else 150
+    nd = 20 if tier == 'quick' else 120
+    nf = 24 if tier == 'quick' else 200
+    ndp = 8 if tier == 'quick' else 40
+    nai = 4 if tier == 'quick' else 16
     check_weights(chk, ctx, rng, 60 if tier == 'quick' else 600)
     if have_driver(ctx):
         out = ask(ctx, 'shapes13')
